@@ -446,8 +446,8 @@ func legRobust(c *Ctx) {
 			}
 			re.MatchTimeout = 500 * time.Millisecond
 			var bad []string
-			for n := 1; n <= 80 && len(bad) == 0; n++ {
-				if n > 40 && n%7 != 0 {
+			for n := 1; n <= 48 && len(bad) == 0; n++ {
+				if n > 24 && n%8 != 0 {
 					continue
 				}
 				for _, tl := range gp.tail {
@@ -459,13 +459,13 @@ func legRobust(c *Ctx) {
 					// a FRESH Regexp for every text: a pooled runner keeps its grown stack, and it is the first growth
 					// that has to happen inside the construct
 					re, _ := regexp2.Compile(gp.pat, ro)
-					re.MatchTimeout = 500 * time.Millisecond
+					re.MatchTimeout = 40 * time.Millisecond // (these bodies are exponential on the failing tails: a timeout ends the case)
 					guarded(fmt.Sprintf("match(%q)", in), &bad, false, func() error {
 						if _, err := re.MatchString(in); err != nil {
 							return nil
 						}
 						re2, _ := regexp2.Compile(gp.pat, ro)
-						re2.MatchTimeout = 500 * time.Millisecond
+						re2.MatchTimeout = 40 * time.Millisecond
 						m, err := re2.FindStringMatch("x" + in)
 						for k := 0; m != nil && err == nil && k < 5; k++ {
 							_ = m.String()
@@ -480,14 +480,14 @@ func legRobust(c *Ctx) {
 					})
 				}
 			}
-			cs := &Case{Desc: fmt.Sprintf("stack growth inside a construct: pattern %+q options=%#x on %q x 1..80 + tails %q", gp.pat, int(ro), gp.unit, gp.tail), Nontrivial: true, Key: "grow" + gp.pat + fmt.Sprint(ro), Class: "stack-growth"}
+			cs := &Case{Desc: fmt.Sprintf("stack growth inside a construct: pattern %+q options=%#x on %q x 1..24, 32, 40, 48 + tails %q", gp.pat, int(ro), gp.unit, gp.tail), Nontrivial: true, Key: "grow" + gp.pat + fmt.Sprint(ro), Class: "stack-growth"}
 			if len(bad) > 0 {
 				cs.Direct = strings.Join(bad, " | ")
 			}
 			c.Add(cs)
 		}
 	}
-	c.Gate("stack-growth stress ran", growCalls > 1000)
+	c.Gate("stack-growth stress ran", growCalls > 500)
 
 	// every truncation of every syntactic construct, at the end of a pattern, under every dialect: the pre-scan
 	// (countCaptures) and the parser look ahead by fixed amounts and must find the end of the pattern first
